@@ -173,7 +173,7 @@ func (a *AggregatePlan) Explain() []string {
 
 func (a *AggregatePlan) prepare(ctx *ExecuteCtx) error {
 	for {
-		k, v, err := a.ChildPlan.Next(nil)
+		k, v, err := a.ChildPlan.Next(ctx)
 		if err != nil {
 			return err
 		}
